@@ -1,0 +1,197 @@
+//go:build verif
+
+package main
+
+import (
+	"errors"
+	"sort"
+	"strings"
+
+	"github.com/moorara/algo/grammar"
+	"github.com/moorara/algo/parser/lr"
+	"github.com/moorara/algo/parser/lr/lookahead"
+
+	"github.com/gardenbed/emerge/internal/ebnf/parser/spec"
+)
+
+func init() {
+	register("spec", opSpec)
+	register("lalr", opLALR)
+}
+
+func symJ(s grammar.Symbol) []string {
+	if s.IsTerminal() {
+		return []string{"t", s.String()[1 : len(s.String())-1]}
+	}
+	return []string{"n", s.String()}
+}
+
+func termName(t grammar.Terminal) string { return string(t) }
+
+func prodJ(p *grammar.Production) map[string]any {
+	body := [][]string{}
+	for _, s := range p.Body {
+		if t, ok := s.(grammar.Terminal); ok {
+			body = append(body, []string{"t", string(t)})
+		} else if n, ok := s.(grammar.NonTerminal); ok {
+			body = append(body, []string{"n", string(n)})
+		}
+	}
+	return map[string]any{"head": string(p.Head), "body": body}
+}
+
+func dumpSpec(s *spec.Spec) map[string]any {
+	out := map[string]any{"name": s.Name}
+	terms := []string{}
+	for t := range s.Grammar.Terminals.All() {
+		terms = append(terms, string(t))
+	}
+	sort.Strings(terms)
+	nts := []string{}
+	for n := range s.Grammar.NonTerminals.All() {
+		nts = append(nts, string(n))
+	}
+	sort.Strings(nts)
+	prods := []map[string]any{}
+	for _, p := range s.Productions() {
+		prods = append(prods, prodJ(p))
+	}
+	defs := [][]any{}
+	for _, d := range s.Definitions {
+		defs = append(defs, []any{string(d.Terminal), d.Value, d.IsRegex})
+	}
+	levels := []map[string]any{}
+	for _, lv := range s.Precedences {
+		ts := []string{}
+		ps := []map[string]any{}
+		for h := range lv.Handles.All() {
+			if h.IsTerminal() {
+				ts = append(ts, string(*h.Terminal))
+			} else {
+				ps = append(ps, prodJ(h.Production))
+			}
+		}
+		sort.Strings(ts)
+		sort.Slice(ps, func(i, j int) bool { return jsonKey(ps[i]) < jsonKey(ps[j]) })
+		levels = append(levels, map[string]any{"assoc": lv.Associativity.String(), "terms": ts, "prods": ps})
+	}
+	out["terminals"] = terms
+	out["nonterminals"] = nts
+	out["start"] = string(s.Grammar.Start)
+	out["productions"] = prods
+	out["definitions"] = defs
+	out["precedences"] = levels
+	return out
+}
+
+func jsonKey(p map[string]any) string {
+	var b strings.Builder
+	b.WriteString(p["head"].(string))
+	for _, s := range p["body"].([][]string) {
+		b.WriteString("|" + s[0] + ":" + s[1])
+	}
+	return b.String()
+}
+
+func parseSpec(req request) (*spec.Spec, error) {
+	return spec.Parse("f", strings.NewReader(str(req, "text")))
+}
+
+// opSpec runs spec.Parse and dumps the derived grammar, definitions and precedences (or the error).
+func opSpec(req request) response {
+	s, err := parseSpec(req)
+	if err != nil {
+		return response{"outcome": "error", "error": err.Error(), "nil_spec": s == nil}
+	}
+	if s == nil {
+		return response{"outcome": "ok", "nil_spec": true}
+	}
+	return response{"outcome": "ok", "spec": dumpSpec(s)}
+}
+
+// opLALR runs spec.Parse and Spec.LALRParsingTable and dumps the table entry by entry (conflicts included).
+func opLALR(req request) response {
+	s, err := parseSpec(req)
+	if err != nil {
+		return response{"outcome": "error", "stage": "parse", "error": err.Error()}
+	}
+	res := response{"outcome": "ok", "spec": dumpSpec(s)}
+	T, terr := s.LALRParsingTable()
+	if terr != nil {
+		res["table_error"] = terr.Error()
+	}
+	res["table_nil"] = T == nil
+	if T == nil {
+		// Spec.LALRParsingTable drops the table on error; the same builder call returns it with its conflicts.
+		T, _ = lookahead.BuildParsingTable(s.Grammar, s.Precedences)
+		if T == nil {
+			res["table"] = nil
+			return res
+		}
+	}
+	terms := []string{}
+	for _, a := range T.Terminals {
+		if a != grammar.Endmarker {
+			terms = append(terms, string(a))
+		}
+	}
+	nts := []string{}
+	for _, A := range T.NonTerminals {
+		nts = append(nts, string(A))
+	}
+	actions := [][]any{}
+	conflicts := [][]any{}
+	all := []grammar.Terminal{}
+	for _, a := range T.Terminals {
+		if a != grammar.Endmarker {
+			all = append(all, a)
+		}
+	}
+	all = append(all, grammar.Endmarker)
+	for _, st := range T.States {
+		for _, a := range all {
+			act, err := T.ACTION(st, a)
+			name := string(a)
+			if a == grammar.Endmarker {
+				name = "$"
+			}
+			if err == nil {
+				switch act.Type {
+				case lr.SHIFT:
+					actions = append(actions, []any{int(st), name, "SHIFT", int(act.State)})
+				case lr.REDUCE:
+					actions = append(actions, []any{int(st), name, "REDUCE", prodJ(act.Production)})
+				case lr.ACCEPT:
+					actions = append(actions, []any{int(st), name, "ACCEPT", 0})
+				}
+				continue
+			}
+			var ce *lr.ConflictError
+			if errors.As(err, &ce) {
+				cands := []any{}
+				for x := range ce.Actions.All() {
+					switch x.Type {
+					case lr.SHIFT:
+						cands = append(cands, []any{"SHIFT", int(x.State)})
+					case lr.REDUCE:
+						cands = append(cands, []any{"REDUCE", prodJ(x.Production)})
+					case lr.ACCEPT:
+						cands = append(cands, []any{"ACCEPT", 0})
+					}
+				}
+				conflicts = append(conflicts, []any{int(st), name, cands})
+			}
+		}
+	}
+	gotos := [][]any{}
+	for _, st := range T.States {
+		for _, A := range T.NonTerminals {
+			if n, err := T.GOTO(st, A); err == nil {
+				gotos = append(gotos, []any{int(st), string(A), int(n)})
+			}
+		}
+	}
+	res["table"] = map[string]any{"terminals": terms, "nonterminals": nts, "states": len(T.States),
+		"action": actions, "conflicts": conflicts, "goto": gotos}
+	return res
+}
